@@ -52,6 +52,26 @@ theorem C01_sound (H : List Doc) (h : historyOk H) :
   obtain ⟨t, ht, hm⟩ := parse_exact H h
   exact ⟨t, ht, fun d hd => matches_admits hm d.root (List.mem_map_of_mem hd)⟩
 
+/-- the same for inputs that repeat their root element: the tree admits every top-level element of every input -/
+theorem C01_sound_fragments (F : List Items) (k : Name) (h : fragmentsOk F k) :
+    ∃ t, parseHistory (F.map fragEvents) = .ok t ∧ ∀ is ∈ F, ∀ o ∈ is.named k, Admits t o := by
+  obtain ⟨t, ht, hm, -⟩ := parse_fragments F k h
+  exact ⟨t, ht, fun is his o ho => matches_admits hm o (List.mem_flatMap.mpr ⟨is, his, ho⟩)⟩
+
+/-- and for a sub-structure of a parsed structure extended with further documents: it admits every occurrence
+of that element in the parsed documents and every new document -/
+theorem C01_sound_substructure (H : List Doc) (h : historyOk H) (p : List Name) (ds : List Doc) :
+    ∃ t, parseHistory (H.map Doc.events) = .ok t ∧
+      ∀ s, elemAt p t = some s → (∀ d ∈ ds, d.ok = true ∧ d.root.name = s.name) →
+        ∃ r, (ds.map Doc.events).foldl extendStep (Except.ok s) = .ok r ∧
+          (∀ o ∈ occsAt p (H.map (·.root)), Admits r o) ∧ ∀ d ∈ ds, Admits r d.root := by
+  obtain ⟨t, ht, hsub⟩ := C06_substructure H h p ds
+  refine ⟨t, ht, ?_⟩
+  intro s hs hds
+  obtain ⟨r, hr, hm, -⟩ := hsub s hs hds
+  exact ⟨r, hr, fun o ho => matches_admits hm o (List.mem_append_left _ ho),
+    fun d hd => matches_admits hm d.root (List.mem_append_right _ (List.mem_map_of_mem hd))⟩
+
 /-- under the property's side condition (no two attribute names of one position differ only by namespace
 prefix) the serde names attributes are bound to are pairwise distinct, so "has a field" means "has a field
 bound to its XML name" -/
